@@ -351,6 +351,10 @@ def m2(ctx, rep):
         d0 = kwarg(pc, 'data_frame', 0)
         rep.check('M2.axes', helper, pc, isinstance(d0, ast.Name) and d0.id == 'data',
                   'plots the frame it was given', 'plots something other than the given frame', construct='px data')
+        from ..idioms import row_subsets_reaching
+        for f_, names_, upto in ((helper, {d0.id} if isinstance(d0, ast.Name) else set(), pc), (fn, set(frames), hc)):
+            for st, tn, bn, how in row_subsets_reaching(f_.node, names_, before=upto):
+                rep.bad('M2.label', f_, st, f'`{tn}` becomes {how} of `{bn}` before the figure is built: not every given row is plotted', construct=f'{f_.node.name}: every row plotted')
         from ..kinds import DepKind
         from ..absint import Frame as _F
         dk = DepKind(ctx)
